@@ -3,7 +3,8 @@ From Coq Require Import List Permutation String.
 From TS Require Import Model.Str Model.Outcome Model.Unicode Model.Syntax Model.Rename Model.Types Model.Parse Model.Reconcile Model.Collect Model.Lang.Common Model.MultiFile.
 From TS Require Model.Writer.
 From TS Require Import Spec.C14Spec.
-From TS Require Proofs.C14 Proofs.C14Front Proofs.C14Main Proofs.C14Imports Proofs.C14Order Proofs.C14Witness.
+From TS Require Import Model.Lang.Decl Model.Lang.Kotlin Spec.C14KotlinSpec.
+From TS Require Proofs.C14 Proofs.C14Front Proofs.C14Main Proofs.C14Imports Proofs.C14Order Proofs.C14Witness Proofs.C14Kotlin.
 Import ListNotations.
 Local Open Scope string_scope.
 From TS Require Props.C14.
@@ -207,3 +208,57 @@ Goal Proofs.C14Witness.w_run (fun l => l) (fun l => l) Proofs.C14Witness.ws_glob
     = [(lit "k", lit "MyConst")].
 Proof. exact Props.C14.C14_glob_const_fixed. Qed.
 Print Assumptions Props.C14.C14_glob_const_fixed.
+Goal forall (cfg : kt_config) (im : scoped),
+    kt_write_imports cfg im = c14_kt_import_block (kt_package cfg) (kt_prefix cfg) (scoped_pairs im).
+Proof. exact Props.C14.C14_kotlin_import_block. Qed.
+Print Assumptions Props.C14.C14_kotlin_import_block.
+Goal forall (cfg : kt_config) (it : ritem) (ds : list kt_decl),
+    is_type14 it = true -> kt_decl_of cfg it = Ok ds -> c14_kt_alias_class it = false ->
+    exists d, In d ds /\ d_name (kt_obs d) = (kt_prefix cfg ++ renamed (item_id it))%list.
+Proof. exact Props.C14.C14_kotlin_declared_name. Qed.
+Print Assumptions Props.C14.C14_kotlin_declared_name.
+Goal forall (uc : unicode) (cfg : kt_config) (T ign : list str) (ho_file ho_crate : list imported -> list imported)
+         (hc : crate_types -> crate_types) (ws : list ws_entry) (arrivals : list (str * parsed)),
+    parse_workspace uc T ign ho_file ws = Ok arrivals ->
+    (forall l x, In x (hc l) -> In x l) ->
+    forall c pd k n,
+      In (k, n) (scoped_pairs (crate_imports hc (multi_crates ho_crate arrivals) c pd)) ->
+      k <> c /\
+      exists pdk, In (k, pdk) (multi_crates ho_crate arrivals) /\
+        (exists it, In it (items_of pdk) /\ is_type14 it = true /\ renamed (item_id it) = n) /\
+        forall imk text, kt_generate_multi uc cfg k imk pdk = Ok text ->
+          forall it, In it (items_of pdk) -> is_type14 it = true -> renamed (item_id it) = n ->
+            exists ds pre post,
+              kt_decl_of cfg it = Ok ds /\
+              text = (kt_begin_file_multi cfg k ++ c14_kt_import_block (kt_package cfg) (kt_prefix cfg) (scoped_pairs imk) ++
+                      pre ++ List.concat (map kt_render_decl ds) ++ post)%list /\
+              (c14_kt_alias_class it = false -> exists d, In d ds /\ d_name (kt_obs d) = (kt_prefix cfg ++ n)%list).
+Proof. exact Props.C14.C14_kotlin_imports_name_declared_classes. Qed.
+Print Assumptions Props.C14.C14_kotlin_imports_name_declared_classes.
+Goal exists arrivals pd,
+    parse_workspace uc_exec [] [] (fun l => l) Proofs.C14Kotlin.ws_kt_prefix = Ok arrivals /\
+    In (lit "b", pd) (multi_crates (fun l => l) arrivals) /\
+    scoped_pairs (crate_imports (fun l => l) (multi_crates (fun l => l) arrivals) (lit "b") pd) = [(lit "a", lit "A1")].
+Proof. exact Props.C14.C14_kotlin_imports_nonvacuous. Qed.
+Print Assumptions Props.C14.C14_kotlin_imports_nonvacuous.
+Goal Proofs.C14Kotlin.w_kt_text (lit "KP") Proofs.C14Kotlin.ws_kt_prefix (lit "b") =
+    Some (lit "package p.b" ++ [10%N; 10%N] ++ lit "import kotlinx.serialization.Serializable" ++ [10%N] ++
+          lit "import kotlinx.serialization.SerialName" ++ [10%N; 10%N] ++ lit "import p.a.KPA1" ++ [10%N; 10%N] ++
+          lit "@Serializable" ++ [10%N] ++ lit "data class KPB1 (" ++ [10%N; 9%N] ++ lit "val f: KPA1" ++ [10%N] ++ lit ")" ++ [10%N; 10%N])%list /\
+  Proofs.C14Kotlin.w_kt_text (lit "KP") Proofs.C14Kotlin.ws_kt_prefix (lit "a") =
+    Some (lit "package p.a" ++ [10%N; 10%N] ++ lit "import kotlinx.serialization.Serializable" ++ [10%N] ++
+          lit "import kotlinx.serialization.SerialName" ++ [10%N; 10%N; 10%N] ++
+          lit "@Serializable" ++ [10%N] ++ lit "data class KPA1 (" ++ [10%N; 9%N] ++ lit "val x: UByte" ++ [10%N] ++ lit ")" ++ [10%N; 10%N])%list /\
+  match Proofs.C14Kotlin.w_kt_text [] Proofs.C14Kotlin.ws_kt_prefix (lit "b") with
+  | Some t => contains_sub (lit "import p.a.A1") t | None => false end = true.
+Proof. exact Props.C14.C14_kotlin_import_prefix_fixed. Qed.
+Print Assumptions Props.C14.C14_kotlin_import_prefix_fixed.
+Goal let a := {| aid := {| original := lit "Id"; renamed := lit "UserId"; via_serde_rename := true |}; agenerics := [];
+              atype := RPrim PString; acomments := []; adecs := []; aredacted := false |} in
+  c14_kt_alias_class (ItAlias a) = true /\
+  match kt_decl_of (Proofs.C14Kotlin.w_kt (lit "KP")) (ItAlias a) with
+  | Ok [d] => str_eqb (d_name (kt_obs d)) (lit "KPId")
+  | _ => false
+  end = true.
+Proof. exact Props.C14.C14_kotlin_alias_class_needed. Qed.
+Print Assumptions Props.C14.C14_kotlin_alias_class_needed.
